@@ -1,4 +1,5 @@
 //! Independent reference implementations (no lopdf types in here).
+pub mod cmap_ref;
 pub mod codecs;
 pub mod refwriter;
 pub mod robj;
